@@ -2,7 +2,7 @@ SPECIFICATION Spec
 CONSTANTS
   Jobs = {"1", "2", "3"}
   Execs = {"M", "S", "T", "R", "I", "J"}
-  Chains = {"none", "1S2", "1M2", "1T2", "1R2", "1I2"}
-  MaxLen = 6
+  Chains = {"none", "1S2", "1I2"}
+  MaxLen = 5
 INVARIANTS CalledXorDropped DropOnlyWhenRefused Emit
 CHECK_DEADLOCK FALSE
